@@ -75,7 +75,7 @@ pub fn gen_any(ctx: &mut Ctx) -> Option<AnyProg> {
 fn custom_bad_args(ctx: &mut Ctx) {
     use crate::gen::custom::{make_family_op, FAMILIES};
     use ciphercore_base::data_types::{array_type, named_tuple_type, scalar_type, tuple_type, vector_type, BIT, INT64, UINT64, UINT8};
-    let total = ctx.q(20000, 300000);
+    let total = ctx.q(50000, 500000);
     ctx.cases("custom_bad_args", total, |ctx, idx| {
         let fam = FAMILIES[(idx % FAMILIES.len() as u64) as usize];
         let c = create_context().unwrap();
@@ -119,7 +119,7 @@ fn custom_bad_args(ctx: &mut Ctx) {
 pub fn run(ctx: &mut Ctx) {
     custom_bad_args(ctx);
     let mut rec = Recorder::new(ctx, "c09");
-    let total = ctx.q(120000, 2000000);
+    let total = ctx.q(300000, 3000000);
     ctx.cases("gany", total, |ctx, idx| {
         let prog = match gen_any(ctx) {
             Some(p) => p,
